@@ -176,6 +176,20 @@ def listGroups (n : Nat) (l : List Int) : List (List W) :=
   (ps.zip (valueSlices 0 ps)).map (fun pv => pieceWrites n l.length pv.1 pv.2)
 end NdWrites
 
+/-- What is finally found on the target selected by `q` after the writes `ws`: the element of the
+value (`value` maps a multi-index into the value to its element; with `β = Option α` the element
+carries its mask) of the LAST matching write, or the original element when nothing was written. -/
+def finalElem {β : Type} (orig : β) (value : List Nat → β) (q : List W → Bool) (ws : List (List W)) : β :=
+  match lastSat q ws with
+  | none => orig
+  | some w => value (w.map Prod.snd)
+
+/-- `netcdf_indexer.index_shape` for a parsed index tuple. -/
+def indexShape (shape : List Nat) (sels : List Sel) : List Nat :=
+  List.zipWith (fun s n => match s with
+    | .slice a b c => indexShapeSlice a b c n
+    | .list l => l.length) sels shape
+
 /-- No consecutive pair `(l[2k], l[2k+1])` repeats a position. -/
 def pairsDistinct (n : Nat) : List Int → Bool
   | a :: b :: rest => (norm n a != norm n b) && pairsDistinct n rest
